@@ -943,11 +943,24 @@ func c18Watcher(res *Result) {
 		}
 		return false
 	}
+	// pre: what happens to the file just before the edit - "invalid": it briefly holds text that is not YAML (the reload of
+	// that version fails), "away": it is moved away and the new version is moved into place a moment later (the reload in
+	// between finds no file). The admitted set must equal the final file all the same.
 	steps := []struct {
 		state  int
 		rename bool
-	}{{8 | 1 | 2 | 4, false}, {8 | 1, false}, {0, false}, {8 | 4, false}, {8 | 1 | 2, true}, {8 | 2, true}, {8 | 2 | 4, false}, {23, false}, {8 | 1, false}, {24, true}, {17, false}}
+		pre    string
+	}{{8 | 1 | 2 | 4, false, ""}, {8 | 1, false, ""}, {0, false, ""}, {8 | 4, false, ""}, {8 | 1 | 2, true, ""}, {8 | 2, true, ""}, {8 | 2 | 4, false, ""}, {23, false, ""}, {8 | 1, false, ""}, {24, true, ""}, {17, false, ""},
+		{8 | 1 | 4, false, "invalid"}, {8 | 2, false, ""}, {8 | 1, true, "away"}, {8 | 4, false, ""}, {8 | 1 | 2, true, "invalid"}, {8 | 4, true, ""}}
 	for i, st := range steps {
+		switch st.pre {
+		case "invalid":
+			os.WriteFile(file, []byte("enable: [true\nip_white_list: {{\n"), 0o644)
+			time.Sleep(150 * time.Millisecond) // lets the watcher consume the failing version; not an oracle
+		case "away":
+			os.Rename(file, file+".bak")
+			time.Sleep(150 * time.Millisecond)
+		}
 		if st.rename {
 			tmp := file + ".tmp"
 			os.WriteFile(tmp, []byte(c18File(st.state)), 0o644)
@@ -961,7 +974,10 @@ func c18Watcher(res *Result) {
 			if st.rename {
 				sig = "rename-replace-not-reloaded"
 			}
-			addFound(res, "watcher", sig, fmt.Sprintf("real fsnotify watcher: after edit #%d (rename=%v) to %q the admitted set did not equal the file within 20 s", i, st.rename, c18File(st.state)), fmt.Sprint("watcher-step-", i))
+			if st.pre != "" {
+				sig = "watcher-dead-after-failed-reload"
+			}
+			addFound(res, "watcher", sig, fmt.Sprintf("real fsnotify watcher: after edit #%d (rename=%v, before it: %q) to %q the admitted set did not equal the file within 20 s", i, st.rename, st.pre, c18File(st.state)), fmt.Sprint("watcher-step-", i))
 			return
 		}
 	}
